@@ -124,6 +124,8 @@ def run(F, R):
     e13_counter_accounting(F, R, M)
     e14_release_form(F, R, M)
     release_rule(F, R, 'E15')
+    e16_chain_link(F, R, M)
+    e17_helper_waits(F, R, M, roles)
 
 
 def e8_helper_token(F, R, M, roles, rule='E8'):
@@ -301,6 +303,110 @@ def e14_release_form(F, R, M, rule='E14'):
                 'the indirect table of a chain is released without a test of the head descriptor\'s own flags (guards: %s): a directly submitted '
                 'chain on a queue with indirect descriptors enabled is released as if it had a table' % [fmt(g)[:50] for g in gs][:3])
     R.count('table_releases', len(seen))
+
+
+def e16_chain_link(F, R, M, rule='E16'):
+    """Walking a chain to release it follows exactly the links that were written: the descriptor's link accessor (the function of
+    the descriptor type returning Option<index>) yields Some(next field) iff the NEXT flag (bit 0) is set, for every value of the
+    next field - index 0 included - and every combination of the other flags."""
+    nf, ff = M.desc_field_by_role.get('next'), M.desc_field_by_role.get('flags')
+    n = 0
+    for b in sorted(F.bodies.values(), key=lambda x: x['id']):
+        if b.get('impl_adt') != M.desc_adt or not F.handwritten(b) or b['kind'] != 'AssocFn' or b['arg_count'] != 1 or \
+                not b.get('sig', '').endswith('-> core::option::Option<u16>'):
+            continue
+        sg = supergraph(F, b['id'])
+        try:
+            paths = [p for p in PathEnum(sg).run() if not p.panicked]
+        except PathLimit as e:
+            R.abstain(rule, '%s:chain-link' % b['id'], str(e), fn_site(F, b['id']))
+            continue
+        n += 1
+        bad = None
+        for flags in (0, 1, 2, 3, 4, 5, 7):
+            for nxt in (0, 1, 5, 0x7fff, 0xffff):
+                def leaf(t, flags=flags, nxt=nxt):
+                    s_ = fmt(t)
+                    if t[0] in ('load', 'load0', 'field') and s_.rstrip(')').endswith('.' + nf):
+                        return nxt
+                    if t[0] in ('load', 'load0', 'field') and ('.' + ff) in s_:
+                        return flags
+                    raise Unfoldable(s_[:60])
+                fo = Folder(leaf)
+                try:
+                    hit = [p for p in paths if path_holds(fo, p)]
+                    if len(hit) != 1:
+                        bad = 'flags %#x next %d: %d feasible paths' % (flags, nxt, len(hit))
+                        break
+                    r = hit[0].ret
+                    ev = err_variant(r)
+                    got = fo.ev(r[2][0]) if ev == 'Some' else None
+                except Unfoldable as e:
+                    bad = 'unfoldable: %s' % e
+                    break
+                want = nxt if flags & 1 else None
+                if got != want:
+                    bad = 'flags %#x, next field %d: the accessor yields %s, the chain written says %s' % (flags, nxt, got, want)
+                    break
+            if bad:
+                break
+        if bad and bad.startswith('unfoldable'):
+            R.abstain(rule, '%s:chain-link' % b['id'], bad, fn_site(F, b['id']))
+            continue
+        R.check(bad is None, rule, '%s:chain-link' % b['id'], fn_site(F, b['id']), 'Some(next) iff NEXT is set, for every next index',
+                'descriptor link accessor: %s - the release walk stops early (or runs on), leaving descriptors of a completed chain held' % bad)
+    R.count('link_accessors', n)
+
+
+def e17_helper_waits(F, R, M, roles, rule='E17'):
+    """A blocking helper pops only after the completion test said something is ready: every way from its add to its pop_used
+    passes an edge on which can_pop / peek_used reported a completion - whatever the notification decision was."""
+    by = {}
+    for k, v in roles.items():
+        by.setdefault(v, []).append(k)
+    ready_fns = set(by.get('can_pop', []) + by.get('peek_used', []))
+    n = 0
+    for hid in sorted(by.get('add_notify_wait_pop', [])):
+        sg = supergraph(F, hid, opaque=lambda t, bb: bb['id'] in roles, tag='e17')
+        S = sg.sym
+        adds = [c for c in sg.calls(lambda d: roles.get(d.get('fn')) == 'add')]
+        pops = [c for c in sg.calls(lambda d: roles.get(d.get('fn')) == 'pop_used')]
+        if not adds or not pops:
+            continue
+        n += 1
+        ready_edges = set()
+        for nd in sg.nodes:
+            if nd.kind != 'switch':
+                continue
+            d = S.operand(nd.id, nd.d['discr'])
+            neg = False
+            x = strip_conv(d)
+            while x[0] == 'un' and 'Not' in str(x[1]):
+                neg = not neg
+                x = strip_conv(x[2])
+            some = None
+            if x[0] == 'discr' and any(y[0] == 'call' and y[2] in ready_fns for y in subterms(x)):
+                some = True      # Option discriminant of peek_used: Some = 1
+            elif x[0] == 'call' and x[2] in ready_fns:
+                some = True
+            elif x[0] == 'call' and x[2].rsplit('::', 1)[-1] in ('is_some', 'is_none') and any(y[0] == 'call' and y[2] in ready_fns for y in deep_subterms(S, x)):
+                some = x[2].endswith('is_some')
+            if some is None:
+                continue
+            want_true = some != neg
+            explicit = [v_ for v_, _ in nd.switch_edges if v_ is not None]
+            for v_, su in nd.switch_edges:
+                is_true = (v_ is None and all(e_ == 0 for e_ in explicit)) or (v_ is not None and v_ != 0)
+                if is_true == want_true:
+                    ready_edges.add((nd.id, su))
+        ok = bool(ready_edges)
+        if ok:
+            reach = sg.reach_fwd([s_ for a in adds for s_ in a.succ], avoid_edges=ready_edges)
+            ok = not any(p.id in reach for p in pops)
+        R.check(ok, rule, '%s:pops-after-ready' % hid, site(sg, pops[0]), 'every way from add to pop_used passes a "completion ready" edge',
+                '%s can reach its pop_used without the completion test having reported a completion (e.g. when no notification was needed): the '
+                'request is reported NotReady although the device will serve it, and the chain stays in flight' % hid.rsplit('::', 1)[1])
+    R.count('blocking_helpers', n)
 
 
 @shared_rule
